@@ -25,3 +25,18 @@ Theorem C04_accepted_uses_are_defined : forall (o : oracle), fair o -> forall so
   forall n i t u, n <> NComdat -> get old n i = Some t -> In u (t_uses t) -> u_ns u <> NAttr ->
     get old (u_ns u) (u_id u) <> None.
 Proof. exact accepted_has_no_undefined_use. Qed.
+
+(* ... and denotes exactly one definition: the index holds one entry per (namespace, identifier), for every
+   module and every map order, so the entry a use resolves to is the definition carrying that name *)
+Theorem C04_index_keys_unique : forall l m, index_defs l [] = Skeleton.Ok m -> NoDup (keys m).
+Proof. intros l m H. exact (index_keys_unique l [] m H (NoDup_nil _)). Qed.
+Theorem C04_use_is_def_module : forall (o : oracle), fair o -> forall sort_idents l m old,
+  index_defs (number_globals l 0) [] = Skeleton.Ok old -> Skeleton.translate o sort_idents l = Skeleton.Ok m ->
+  forall n i t u, n <> NComdat -> get old n i = Some t -> In u (t_uses t) -> u_ns u <> NAttr ->
+  exists d, In (u_ns u, u_id u, d) old /\ forall e, In e old -> key_of e = (u_ns u, u_id u) -> e = (u_ns u, u_id u, d).
+Proof. exact use_is_def_module. Qed.
+(* non-vacuity: a two-entity module in which the second uses the first *)
+Example C04_use_is_def_module_example :
+  let l := [mk NGlobal nameA KPlain []; mk NGlobal nameB KPlain [{| u_ns := NGlobal; u_id := nameA |}]] in
+  is_ok (index_defs (number_globals l 0) []) = true /\ is_ok (Skeleton.translate id_oracle (fun x => x) l) = true.
+Proof. split; reflexivity. Qed.
